@@ -505,7 +505,10 @@ class Bus (objects.DBusObject):
                         kwargs['args'] = []
                     kwargs['args'].append((int(k[3:]), value))
 
-        self.router.addMatch(caller.sendMessage, **kwargs)
+        rule_id = self.router.addMatch(caller.sendMessage, **kwargs)
+
+        # remembered so that clientDisconnected can drop the rule
+        caller.matchRules.add(rule_id)
 
     def dbus_GetNameOwner(self, busName):
         if busName.startswith(':'):
